@@ -75,7 +75,6 @@ impl<T> Clone for Sender<T> {
 #[verifier::external_body] pub struct ScopedIp { x: u8 }
 #[verifier::external_body] pub struct ResolvedService { x: u8 }
 #[verifier::external_body] pub struct DaemonOption { x: u8 }
-#[verifier::external_body] pub struct DaemonOptionVal { x: u8 }
 #[verifier::external_body] pub struct IfPredicate { x: u8 }
 #[verifier::external_body] pub struct DnsRecordIntf { x: u8 }
 
